@@ -238,6 +238,18 @@ func init() {
 						c.Sample(map[string]any{"law": "R", "case": sc.String()})
 					}
 				}},
+				{Name: "reflexive-constructed", N: len(allConstructed), Exhaustive: true, Run: func(c *Ctx, idx int) {
+					cv := allConstructed[idx]
+					x, again := cv.Make(), cv.Make()
+					c.Distinct("R|constructed|"+cv.Label, true)
+					c.Count("law:R", 2)
+					if eq, ok := itemsEqual(c, "R constructed "+cv.Label, x, x); ok && !eq {
+						c.Fail("eq|R|constructed", "ItemsEqual(x,x) is false for a value made by "+cv.Label, map[string]any{"case": cv.Label})
+					}
+					if eq, ok := itemsEqual(c, "R constructed-twice "+cv.Label, x, again); ok && !eq {
+						c.Fail("eq|R|constructed-twice", "two values made the same way by "+cv.Label+" are not equal", map[string]any{"case": cv.Label})
+					}
+				}},
 				{Name: "reflexive-toplevel", N: len(vmodel.ItemShapes(false)), Exhaustive: true, Run: func(c *Ctx, idx int) {
 					g := exactGen(c, true, idx)
 					sh := vmodel.ItemShapes(false)[idx]
